@@ -471,6 +471,25 @@ struct RulesSession : public vw::Session {
     return std::string(inC ? "1" : "0") + (inE ? "1" : "0") + (inB ? "1" : "0");
   }
 
+  // paid <t> <tip>: is the payout info of ATV t rewarded in the payout computed on top of <tip>, and is the ATV's
+  // block of proof on the VBK best chain (only those count)?  -> "<1|0> <bopactive|bopfork>"
+  std::string paid(Instance& I, const std::string& t, const std::string& tipId) {
+    if (!reg->atv.count(t)) return "SKIP";
+    auto* i = I.idx(tipId);
+    if (i == nullptr || i != I.tree.getBestChain().tip()) return "SKIP nottip";
+    const ATV& a = reg->atv.at(t);
+    DefaultPopRewardsCalculator calc(I.tree);
+    PopPayouts out;
+    ValidationState st;
+    if (!calc.getPopPayout(i->getHash(), out, st)) return "fail " + st.GetPath();
+    bool p = false;
+    for (auto& kv : out.payouts)
+      if (kv.first == a.transaction.publicationData.payoutInfo && kv.second > 0) p = true;
+    auto* bop = I.tree.vbk().getBlockIndex(a.blockOfProof.getHash());
+    bool act = bop != nullptr && I.tree.vbk().getBestChain().contains(bop);
+    return std::string(p ? "1" : "0") + (act ? " bopactive" : " bopfork");
+  }
+
   // mempool: mpsub atv|vtb|vbk <id>  -> status ; mpgen <a> : body of registry block a := generatePopData()
   std::string mpsub(Instance& I, const std::string& kind, const std::string& id) {
     ValidationState st;
@@ -511,6 +530,7 @@ struct RulesSession : public vw::Session {
     if (c == "cmpx" && t.size() > 1) return cmpx(I, t[1]);
     if (c == "stateless" && t.size() > 1) return stateless(t[1]);
     if (c == "endorsed" && t.size() > 2) return endorsedOp(I, t[1], t[2]);
+    if (c == "paid" && t.size() > 2) return paid(I, t[1], t[2]);
     if (c == "mpsub" && t.size() > 2) return mpsub(I, t[1], t[2]);
     if (c == "mpgen" && t.size() > 1) return mpgen(I, t[1]);
     return "";
